@@ -232,6 +232,18 @@ SLOT_CARRIERS = [
     "names := .elements.name ++ {s2} }}",
     "select shout({s1}) ++ (select {s2} limit 1)",
 ]
+GROUP_SUBJ = ['User', 'User { name }', '(select User filter .age > 1)',
+              'User.friends', 'Post', 'Team.members']
+GROUP_BY = ['by .age', 'by .age, .name', 'using a := .age ?? 0 by a',
+            'using a := .age ?? 0, n := .name by a, n',
+            'using a := .age ?? 0, n := .name by cube(a, n)',
+            'using a := .age ?? 0, n := .name by rollup(a, n)',
+            'using a := .age ?? 0, n := .name by {a, (a, n)}',
+            'using n := .name, c := count(.friends) by n, c',
+            'using n := .name by {n, ()}',
+            'using k := <str>$p by k', 'using k := global cur by k, .age']
+GROUP_RES = ['{ key: { age }, grouping, n := count(.elements) }',
+             '{ elements: { name } }', '', '.elements.name']
 HAND = '''select User
 select User { name, friends: { name, @since } order by .name } filter .age > 3 order by .name limit 2
 select Post { title, a := .author.name, fr := .author.friends { name } } filter exists .ptags
@@ -756,6 +768,20 @@ def cases(quick, seed):
                 add(t1.format(d=inner, d0=''), 'dml2')
     for q in OVERLAY:
         add(q, 'overlay')
+    for subj in GROUP_SUBJ:
+        for by in GROUP_BY:
+            for res in GROUP_RES:
+                if res.startswith('.'):
+                    add(f'select (group {subj} {by}){res}', 'group')
+                elif res:
+                    add(f'select (group {subj} {by}) {res}', 'group')
+                else:
+                    add(f'group {subj} {by}', 'group')
+            add(f'for x in {{1, 2}} union (select (group {subj} {by}) '
+                f'{{ grouping, y := x }})', 'group')
+            add(f'select User {{ name, g := (group .friends {by}) '
+                f'{{ grouping }} }}' if subj == 'User' else
+                f'select count((group {subj} {by}))', 'group')
     for ci, car in enumerate(SLOT_CARRIERS):
         for (s1, k1), (s2, k2) in itertools.product(SLOTS, repeat=2):
             add(car.format(s1=SLOT_STR[s1], s2=SLOT_STR[s2]), 'slots2')
